@@ -16,6 +16,7 @@
 (* try_complete destroys the operation's stop callback, which waits while  *)
 (* that callback is executing on another thread ("pass.dereg_wait").       *)
 (* Schedule points: "op", "pass.cos", "pass.aos", "pass.tca", "pass.tcc",  *)
+(* "pass.claimed" (between a successful claiming CAS and the rendezvous),  *)
 (* "pass.stop_cas", "canc.started".                                        *)
 (***************************************************************************)
 EXTENDS Integers, Sequences, FiniteSets, TLC
@@ -109,15 +110,47 @@ Finish(t, first, second, ret, rv, endEvs) ==
           /\ IF ret = "canc" THEN Stay(t, "canc.started") /\ lastEv' = <<>>
              ELSE Advance(t) /\ lastEv' = endEvs
 
+\* a successful claiming CAS: the counterpart (still named by sloc[t]) has left the slot; schedule point "pass.claimed"
+\* lies between the claim and the rendezvous (payload transfer + completion of both sides)
+ClaimOnly(t) == slot' = 0 /\ Stay(t, "pass.claimed") /\ lastEv' = <<>>
+
+Claimed(t) ==
+  LET o == Op(t)
+      s == sloc[t] IN
+  /\ CASE o[1] \in {"call", "throw"} ->
+            LET x == o[2]
+                a == s - 20 IN
+            /\ recv' = RecvAfter(x, a) /\ moved' = MovedAfter(x) /\ given' = [given EXCEPT ![x] = @ + 1]
+            /\ Finish(t, a, x, "canc", 0, <<>>)
+       [] o[1] = "accept" ->
+            LET x == o[2]
+                c == s - 10 IN
+            /\ recv' = RecvAfter(c, x) /\ moved' = MovedAfter(c) /\ given' = [given EXCEPT ![c] = @ + 1]
+            \* accept_op::start: try_complete(this) + forwarder first, then the caller's resume_
+            /\ cs' = [cs EXCEPT ![x] = @ \cup {"completed"}, ![c] = @ \cup {"completed"}]
+            /\ IF cbExec[c] \notin {0, t}
+               THEN /\ cb' = [cb EXCEPT ![x] = "gone"] /\ q' = Enq(q, x)
+                    /\ pend' = [pend EXCEPT ![t] = [blk |-> c, nxt |-> 0, ret |-> "canc", rv |-> 0]]
+                    /\ Stay(t, "pass.dereg_wait") /\ lastEv' = <<>>
+               ELSE /\ cb' = [cb EXCEPT ![x] = "gone", ![c] = "gone"] /\ q' = Enq(Enq(q, x), c)
+                    /\ pend' = pend /\ Stay(t, "canc.started") /\ lastEv' = <<>>
+       [] o[1] = "trycall" ->
+            LET a == s - 20 IN
+            /\ recv' = [recv EXCEPT ![a] = o[2]] /\ UNCHANGED <<moved, given>>
+            /\ Finish(t, a, 0, "trycall", 1, <<Ev("TryCallE", t, 0, 1, 0, 0, 0)>>)
+       [] o[1] = "tryaccept" ->
+            LET c == s - 10
+                rv == IF kind[c] = "c" THEN pay[c] ELSE -1 IN
+            /\ moved' = MovedAfter(c) /\ given' = [given EXCEPT ![c] = @ + 1] /\ recv' = recv
+            /\ Finish(t, c, 0, "tryacc", rv, <<Ev("TryAccE", t, 0, rv, 0, 0, 0)>>)
+  /\ UNCHANGED <<slot, sloc, kind, pay, canc, cbExec, src, bad, done, chan, phase>>
+
 Cos(t, x) ==
   LET s == sloc[t] IN
   IF IsAcceptor(s)
   THEN IF slot = s
-       THEN LET a == s - 20 IN
-            /\ slot' = 0 /\ recv' = RecvAfter(x, a) /\ moved' = MovedAfter(x)
-            /\ given' = [given EXCEPT ![x] = @ + 1]
-            /\ Finish(t, a, x, "canc", 0, <<>>)
-            /\ UNCHANGED <<sloc, bad, phase>>
+       THEN /\ ClaimOnly(t)            \* the acceptor is out of the slot; the rendezvous follows ("pass.claimed")
+            /\ UNCHANGED <<sloc, recv, moved, given, cs, cb, q, pend, bad, phase>>
        ELSE /\ sloc' = [sloc EXCEPT ![t] = slot] /\ Stay(t, "pass.cos") /\ lastEv' = <<>>
             /\ UNCHANGED <<slot, recv, moved, given, cs, cb, q, pend, bad, phase>>
   ELSE IF s = 0
@@ -133,19 +166,8 @@ Aos(t, x) ==
   LET s == sloc[t] IN
   IF IsCaller(s)
   THEN IF slot = s
-       THEN LET c == s - 10 IN
-            /\ slot' = 0 /\ recv' = RecvAfter(c, x) /\ moved' = MovedAfter(c)
-            /\ given' = [given EXCEPT ![c] = @ + 1]
-            \* accept_op::start: try_complete(this) + forwarder first, then the caller's resume_
-            /\ IF cbExec[c] \notin {0, t}
-               THEN /\ cs' = [cs EXCEPT ![x] = @ \cup {"completed"}, ![c] = @ \cup {"completed"}]
-                    /\ cb' = [cb EXCEPT ![x] = "gone"] /\ q' = Enq(q, x)
-                    /\ pend' = [pend EXCEPT ![t] = [blk |-> c, nxt |-> 0, ret |-> "canc", rv |-> 0]]
-                    /\ Stay(t, "pass.dereg_wait") /\ lastEv' = <<>>
-               ELSE /\ cs' = [cs EXCEPT ![x] = @ \cup {"completed"}, ![c] = @ \cup {"completed"}]
-                    /\ cb' = [cb EXCEPT ![x] = "gone", ![c] = "gone"] /\ q' = Enq(Enq(q, x), c)
-                    /\ pend' = pend /\ Stay(t, "canc.started") /\ lastEv' = <<>>
-            /\ UNCHANGED <<sloc, bad, phase>>
+       THEN /\ ClaimOnly(t)
+            /\ UNCHANGED <<sloc, recv, moved, given, cs, cb, q, pend, bad, phase>>
        ELSE /\ sloc' = [sloc EXCEPT ![t] = slot] /\ Stay(t, "pass.aos") /\ lastEv' = <<>>
             /\ UNCHANGED <<slot, recv, moved, given, cs, cb, q, pend, bad, phase>>
   ELSE IF s = 0
@@ -215,10 +237,7 @@ TryCallOp(t, p) ==
 Tca(t, p) ==
   LET s == sloc[t] IN
   IF slot = s
-  THEN LET a == s - 20 IN
-       /\ slot' = 0 /\ recv' = [recv EXCEPT ![a] = p]
-       /\ Finish(t, a, 0, "trycall", 1, <<Ev("TryCallE", t, 0, 1, 0, 0, 0)>>)
-       /\ sloc' = sloc
+  THEN /\ ClaimOnly(t) /\ UNCHANGED <<sloc, recv, cs, cb, q, pend>>
   ELSE IF IsAcceptor(slot)
   THEN /\ sloc' = [sloc EXCEPT ![t] = slot] /\ Stay(t, "pass.tca") /\ lastEv' = <<>>
        /\ UNCHANGED <<slot, recv, cs, cb, q, pend>>
@@ -234,11 +253,7 @@ TryAcceptOp(t) ==
 Tcc(t) ==
   LET s == sloc[t] IN
   IF slot = s
-  THEN LET c == s - 10
-           rv == IF kind[c] = "c" THEN pay[c] ELSE -1 IN
-       /\ slot' = 0 /\ moved' = MovedAfter(c) /\ given' = [given EXCEPT ![c] = @ + 1]
-       /\ Finish(t, c, 0, "tryacc", rv, <<Ev("TryAccE", t, 0, rv, 0, 0, 0)>>)
-       /\ sloc' = sloc
+  THEN /\ ClaimOnly(t) /\ UNCHANGED <<sloc, moved, given, cs, cb, q, pend>>
   ELSE IF IsCaller(slot)
   THEN /\ sloc' = [sloc EXCEPT ![t] = slot] /\ Stay(t, "pass.tcc") /\ lastEv' = <<>>
        /\ UNCHANGED <<slot, moved, given, cs, cb, q, pend>>
@@ -275,6 +290,7 @@ Step(t) ==
                 /\ UNCHANGED <<slot, sloc, kind, pay, moved, recv, canc, cs, cb, cbExec, src, pend, bad, phase, given>>
      \/ pc[t] = "pass.cos" /\ Cos(t, Op(t)[2]) /\ UNCHANGED <<kind, pay, canc, cbExec, src, done, chan>>
      \/ pc[t] = "pass.aos" /\ Aos(t, Op(t)[2]) /\ UNCHANGED <<kind, pay, canc, cbExec, src, done, chan>>
+     \/ pc[t] = "pass.claimed" /\ Claimed(t)
      \/ pc[t] = "pass.dereg_wait" /\ DeregWait(t)
      \/ pc[t] = "canc.started" /\ CancStarted(t, Op(t)[2])
           /\ UNCHANGED <<slot, sloc, kind, pay, moved, recv, canc, cb, cbExec, src, pend, q, bad, done, chan, given>>
@@ -334,7 +350,9 @@ AcceptValueIsSomePayload ==
 ArgsUntouchedOnCancel == \A x \in Callers : canc[x] => ~moved[x]
 \* a suspended operation is in the slot or completed/being completed
 SuspendedIsInSlot ==
-  \A x \in Ents : (phase[x] = "started" /\ "completed" \notin cs[x]) => slot = (IF kind[x] = "a" THEN 20 ELSE 10) + x
+  \A x \in Ents : (phase[x] = "started" /\ "completed" \notin cs[x]) =>
+     LET mine == (IF kind[x] = "a" THEN 20 ELSE 10) + x IN
+     slot = mine \/ \E t \in Threads : pc[t] = "pass.claimed" /\ sloc[t] = mine
 \* at quiescence
 AllCompleteAtEnd == (fin /\ bad = "ok") => \A x \in Ents : phase[x] = "started" => done[x] = 1
 SlotIdleAtEnd == (fin /\ bad = "ok") => slot = 0
